@@ -707,12 +707,14 @@ func (m *Mint) GetMeltQuoteState(ctx context.Context, quoteId string) (storage.M
 			m.logInfof("payment %v succeded. setting melt quote '%v' to paid and invalidating proofs",
 				meltQuote.PaymentHash, meltQuote.Id)
 
-			proofs, err := m.removePendingProofsForQuote(meltQuote.Id)
+			proofs, Ys, err := m.pendingProofsForQuote(meltQuote.Id)
 			if err != nil {
-				errmsg := fmt.Sprintf("error removing pending proofs for quote: %v", err)
+				errmsg := fmt.Sprintf("error getting pending proofs for quote: %v", err)
 				return storage.MeltQuote{}, cashu.BuildCashuError(errmsg, cashu.DBErrCode)
 			}
-			err = m.db.SaveProofs(proofs)
+			// move from pending to used in one step so that the
+			// proofs are never neither pending nor used
+			err = m.db.SettlePendingProofs(Ys)
 			if err != nil {
 				errmsg := fmt.Sprintf("error invalidating proofs. Could not save proofs to db: %v", err)
 				return storage.MeltQuote{}, cashu.BuildCashuError(errmsg, cashu.DBErrCode)
@@ -737,7 +739,10 @@ func (m *Mint) GetMeltQuoteState(ctx context.Context, quoteId string) (storage.M
 				errmsg := fmt.Sprintf("error updating melt quote state: %v", err)
 				return storage.MeltQuote{}, cashu.BuildCashuError(errmsg, cashu.DBErrCode)
 			}
-			_, err = m.removePendingProofsForQuote(meltQuote.Id)
+			_, Ys, err := m.pendingProofsForQuote(meltQuote.Id)
+			if err == nil {
+				err = m.db.RemovePendingProofs(Ys)
+			}
 			if err != nil {
 				errmsg := fmt.Sprintf("error removing pending proofs for quote: %v", err)
 				return storage.MeltQuote{}, cashu.BuildCashuError(errmsg, cashu.DBErrCode)
@@ -748,10 +753,10 @@ func (m *Mint) GetMeltQuoteState(ctx context.Context, quoteId string) (storage.M
 	return meltQuote, nil
 }
 
-func (m *Mint) removePendingProofsForQuote(quoteId string) (cashu.Proofs, error) {
+func (m *Mint) pendingProofsForQuote(quoteId string) (cashu.Proofs, []string, error) {
 	dbproofs, err := m.db.GetPendingProofsByQuote(quoteId)
 	if err != nil {
-		return nil, err
+		return nil, nil, err
 	}
 
 	proofs := make(cashu.Proofs, len(dbproofs))
@@ -769,12 +774,7 @@ func (m *Mint) removePendingProofsForQuote(quoteId string) (cashu.Proofs, error)
 		proofs[i] = proof
 	}
 
-	err = m.db.RemovePendingProofs(Ys)
-	if err != nil {
-		return nil, err
-	}
-
-	return proofs, nil
+	return proofs, Ys, nil
 }
 
 // MeltTokens verifies whether proofs provided are valid
@@ -844,17 +844,9 @@ func (m *Mint) MeltTokens(ctx context.Context, meltTokensRequest nut05.PostMeltB
 		if err != nil {
 			return storage.MeltQuote{}, err
 		}
-		err := m.db.RemovePendingProofs(Ys)
-		if err != nil {
-			errmsg := fmt.Sprintf("error removing pending proofs: %v", err)
-			return storage.MeltQuote{}, cashu.BuildCashuError(errmsg, cashu.DBErrCode)
+		if err := m.settleProofs(Ys, proofs); err != nil {
+			return storage.MeltQuote{}, err
 		}
-		err = m.db.SaveProofs(proofs)
-		if err != nil {
-			errmsg := fmt.Sprintf("error invalidating proofs. Could not save proofs to db: %v", err)
-			return storage.MeltQuote{}, cashu.BuildCashuError(errmsg, cashu.DBErrCode)
-		}
-		m.publishProofsStateChanges(proofs, nut07.Spent)
 	} else {
 		var sendPaymentResponse lightning.PaymentStatus
 		// if melt is MPP, pay partial amount. If not, send full payment
@@ -1003,14 +995,10 @@ func (m *Mint) settleQuotesInternally(
 // settleProofs will remove the proofs from the pending table
 // and mark them as spent by adding them to the used proofs table
 func (m *Mint) settleProofs(Ys []string, proofs cashu.Proofs) error {
-	err := m.db.RemovePendingProofs(Ys)
+	// done in one step so that the proofs are never neither pending nor used
+	err := m.db.SettlePendingProofs(Ys)
 	if err != nil {
-		errmsg := fmt.Sprintf("error removing pending proofs: %v", err)
-		return cashu.BuildCashuError(errmsg, cashu.DBErrCode)
-	}
-	err = m.db.SaveProofs(proofs)
-	if err != nil {
-		errmsg := fmt.Sprintf("error invalidating proofs. Could not save proofs to db: %v", err)
+		errmsg := fmt.Sprintf("error invalidating proofs. Could not move pending proofs to used: %v", err)
 		return cashu.BuildCashuError(errmsg, cashu.DBErrCode)
 	}
 	m.publishProofsStateChanges(proofs, nut07.Spent)
